@@ -515,6 +515,11 @@ func (w *Workceptor) GetResults(ctx context.Context, unitID string, startPos int
 	stdoutFilename := path.Join(unitdir, "stdout")
 	var stdout *os.File
 	ctxChild, cancel := context.WithCancel(ctx)
+	// A cancelled unit produces no more output, so the stream must end for it as well
+	// (IsComplete does not count WorkStateCanceled).
+	finished := func(state int) bool {
+		return IsComplete(state) || state == WorkStateCanceled
+	}
 	go func() {
 		defer func() {
 			err = stdout.Close()
@@ -531,7 +536,7 @@ func (w *Workceptor) GetResults(ctx context.Context, unitID string, startPos int
 			switch {
 			case err == nil:
 			case os.IsNotExist(err):
-				if IsComplete(unit.Status().State) {
+				if finished(unit.Status().State) {
 					w.nc.GetLogger().Warning("Unit completed without producing any stdout\n")
 
 					return
@@ -614,7 +619,7 @@ func (w *Workceptor) GetResults(ctx context.Context, unitID string, startPos int
 			}
 			if err == io.EOF {
 				unitStatus := unit.Status()
-				if IsComplete(unitStatus.State) && filePos >= unitStatus.StdoutSize {
+				if finished(unitStatus.State) && filePos >= unitStatus.StdoutSize {
 					w.nc.GetLogger().Debug("Stdout complete - closing channel for: %s \n", unitID)
 
 					return
